@@ -356,6 +356,7 @@ class Result:
         os.makedirs(d, exist_ok=True)
         safe = re.sub(r"[^A-Za-z0-9_.-]", "_", str(case_id))[:80]
         path = os.path.join(d, safe + ".json")
+        payload = dict(payload, seed=SEED, tier=self.tier)
         with open(path, "w") as f:
             json.dump(payload, f, indent=1)
         self.violations.append((path, what))
